@@ -48,7 +48,8 @@ def setup(tier):
 
 # ---------------------------------------------------------------- (a) inclusion
 
-CONTEXTS = [("", ""), (" ", " "), ("See ", "."), ("(", ")"), ("x. ", "; y"), ("\n", "\n"), ("“", "”")]
+# letter-free contexts: a context must not itself contain a filter string of the extractor under test
+CONTEXTS = [("", ""), (" ", " "), ("(", ")"), ("1. ", "; 2"), ("\n", "\n"), ("“", "”")]
 
 
 def _variants(e, s):
@@ -86,21 +87,22 @@ def eval_inclusion(case):
     matched = 0
     for k, s0 in enumerate(cands):
         for s1 in _variants(e, s0):
-            pre, post = CONTEXTS[(k + len(s1)) % len(CONTEXTS)] if "idx" in case else ("", "")
-            s = pre + s1 + post
-            if not e.compiled_regex.search(s):
-                res.label("generator-miss")
-                continue
-            matched += 1
-            got = call(ac.get_extractors, s)
-            if isinstance(got, Raised):
-                res.label("raised")
-                continue
-            if not any(x is e for x in got):
-                kind_ = e.constructor.__self__.__name__
-                nonascii = "nonascii" if not s.isascii() else "ascii"
-                res.v(f"filter-miss:{kind_}:{nonascii}", f"pattern of {kind_} extractor (strings {e.strings[:4]}) matches {s!r} but get_extractors skips it",
-                      case={"kind": "incl", "regex": e.regex, "text": s})
+            ctxs = [CONTEXTS[(k + len(s1)) % len(CONTEXTS)], CONTEXTS[(k + len(s1) + 1) % len(CONTEXTS)]] if "idx" in case else [("", "")]
+            for pre, post in ctxs:
+                s = pre + s1 + post
+                if not e.compiled_regex.search(s):
+                    res.label("generator-miss")
+                    continue
+                matched += 1
+                got = call(ac.get_extractors, s)
+                if isinstance(got, Raised):
+                    res.label("raised")
+                    continue
+                if not any(x is e for x in got):
+                    kind_ = e.constructor.__self__.__name__
+                    nonascii = "nonascii" if not s.isascii() else "ascii"
+                    res.v(f"filter-miss:{kind_}:{nonascii}", f"pattern of {kind_} extractor (strings {e.strings[:4]}) matches {s!r} but get_extractors skips it",
+                          case={"kind": "incl", "regex": e.regex, "text": s})
     res.label(f"matched-strings:{min(matched, 50) // 10 * 10}+")
     res.nontrivial = matched > 0
     res.key = ("incl", case.get("idx"), case.get("regex"), case.get("text"))
